@@ -14,6 +14,9 @@ What the extraction drops or rewrites is exactly (and is echoed into the evidenc
   * with drop=debug_assert: `debug_assert!`/`debug_assert_eq!` statements;
   * with dropstmt=<prefix>[@@<prefix>..]: every statement that starts with the prefix (event publication such as
     `publisher.on_duplicate_packet( .. );`, `tracing::error!( .. );`), up to its terminating `;`;
+  * `//@^ after|before "<anchor>" :: <proof-only text>` lines: ghost annotations (proof blocks, assertions, loop
+    invariants, decreases clauses) inserted next to the unique occurrence of the anchor -- Verus erases them, the
+    executable text is unchanged; only text starting with proof/assert/invariant/decreases/ensures/let ghost is accepted;
   * every `subst` pair listed in the directive (stated token substitutions, e.g. a trait call that Verus
     does not know replaced by the equivalent core function).
 Nothing else of the function body is touched.  If an anchor is not found: ExtractError -> undecided."""
@@ -198,7 +201,35 @@ def drop_statements(body, prefix, what):
     return out, n
 
 
-def splice_fn(rel, impl_sel, fn_name, opts, contract_lines):
+GHOST_OK = re.compile(r"^(proof\s*\{|assert\b|assert_by\b|invariant\b|invariant_except_break\b|ensures\b|decreases\b|let\s+ghost\b|broadcast\s+use\b)")
+
+
+def insert_ghost(body, ghost_lines, what):
+    """`//@^ after|before "<anchor>" :: <ghost text>`: inserts proof-only text (proof blocks, assertions, loop
+    invariants / decreases clauses -- erased by Verus, no executable effect) next to the unique occurrence of the
+    anchor in the extracted body.  Every insertion is echoed into the evidence."""
+    notes = []
+    for g in ghost_lines:
+        m = re.match(r'(after|before)\s+"((?:[^"\\]|\\.)*)"\s*::\s*(.*)$', g)
+        if not m:
+            raise ExtractError("malformed ghost directive in %s: %s" % (what, g))
+        where, anchor, text = m.group(1), m.group(2).replace('\\"', '"'), m.group(3).strip()
+        if not GHOST_OK.match(text):
+            raise ExtractError("ghost insertion in %s is not proof-only text: %s" % (what, text[:60]))
+        n = body.count(anchor)
+        if n != 1:
+            raise ExtractError("ghost anchor `%s` occurs %d times in %s (need exactly 1)" % (anchor, n, what))
+        k = body.index(anchor)
+        if where == "after":
+            k += len(anchor)
+            body = body[:k] + "\n        " + text + "\n" + body[k:]
+        else:
+            body = body[:k] + text + "\n        " + body[k:]
+        notes.append("%s: ghost (proof-only) text inserted %s `%s`: %s" % (what, where, anchor, text[:120]))
+    return body, notes
+
+
+def splice_fn(rel, impl_sel, fn_name, opts, contract_lines, ghost_lines=()):
     path = os.path.join(REPO, rel)
     if not os.path.exists(path):
         raise ExtractError("file %s not found" % rel)
@@ -243,6 +274,9 @@ def splice_fn(rel, impl_sel, fn_name, opts, contract_lines):
         body = body.replace(a, b)
         sig = sig.replace(a, b)
         dropped.append("%s::%s: substitution `%s` => `%s`" % (impl_sel, fn_name, a, b))
+    if ghost_lines:
+        body, notes = insert_ghost(body, ghost_lines, "%s::%s" % (impl_sel, fn_name))
+        dropped += notes
     # contract lines may be tagged `[mut]` / `[ref]`: kept only if the extracted signature takes `&mut self` / does not.
     # (a change that turns a `&self` lookup into a `&mut self` mutator is then judged against the frame clause
     # instead of making the contract ill-formed)
@@ -326,11 +360,15 @@ def expand_splices(body):
             rel, impl_sel, fn_name = toks[0], toks[1], toks[2]
             opts = dict(t.split("=", 1) for t in toks[3:] if "=" in t)
             contract = []
+            ghost = []
             i += 1
-            while i < len(lines) and lines[i].strip().startswith("//@|"):
-                contract.append(lines[i].strip()[4:].strip())
+            while i < len(lines) and (lines[i].strip().startswith("//@|") or lines[i].strip().startswith("//@^")):
+                if lines[i].strip().startswith("//@|"):
+                    contract.append(lines[i].strip()[4:].strip())
+                else:
+                    ghost.append(lines[i].strip()[4:].strip())
                 i += 1
-            code, d = splice_fn(rel, impl_sel, fn_name, opts, contract)
+            code, d = splice_fn(rel, impl_sel, fn_name, opts, contract, ghost)
             out.append(code)
             dropped += d
             continue
